@@ -45,6 +45,8 @@ Section Rounding.
 Variable rm : rounding.
 (** Whether its catch-up loop looks at lastSegNrToSend (read from the source as well). *)
 Variable cc : bool.
+(** Whether the first number honours the start number and an empty timeline (read from the source as well). *)
+Variable ff : bool.
 
 Definition avail_ok (r : rep) (loopMS : Z) (c : tcfg) (nr : Z) (o : oavail) : bool :=
   match availMS_float_r rm r loopMS c nr, o with
@@ -62,7 +64,7 @@ Definition ev_of (e : cev) : event :=
   end.
 
 Definition scfg_of (s : sesscase) : scfg :=
-  mk_scfg_rc rm cc (s_reps s) (s_ref s) (s_loopMS s) (s_segDurMS s) (s_cfg s) (s_timeline s) (s_test s) (s_dur s) (s_chunked s).
+  mk_scfg_rcf rm cc ff (s_reps s) (s_ref s) (s_loopMS s) (s_segDurMS s) (s_cfg s) (s_timeline s) (s_test s) (s_dur s) (s_chunked s).
 
 (** Per event: the PUTs that are made (attempts that writeSegment accepts), groups in order, and
     whether the API call of that event returns (a trigger is only taken by a running loop). *)
@@ -178,5 +180,5 @@ Definition model_view_r (c : c16case) : view :=
   end.
 End Rounding.
 
-Definition mismatches := mismatches_r RCeil true.
-Definition model_view := model_view_r RCeil true.
+Definition mismatches := mismatches_r RCeil true false.
+Definition model_view := model_view_r RCeil true false.
